@@ -6,7 +6,9 @@ Theorems (lean/Amoco/Props/C20.lean): `read_program_total`, `constructors_raise_
 PE / Mach-O / COFF at header level).  Tie (correspondence + property oracle) on every run:
   random data, prefix truncations and header/table corruptions of the shipped samples, synthesised
   ELF images (valid, truncated, corrupted), generated HEX / SREC streams (valid, corrupted), crafted
-  adversarial headers → real `amoco.system.core.read_program(bytes)` outcome (class of the object /
+  adversarial headers, structure-aware corruptions (every field of the header chains, load commands,
+  import / export / relocation / symbol / dynamic tables and bind-opcode streams of the samples and of
+  synthesised images set to boundary values, one at a time) → real `amoco.system.core.read_program(bytes)` outcome (class of the object /
   escaping exception class + raising function / wall time) vs the model:
      - ELF, HEX, SREC: the model decides acceptance exactly;
      - PE, Mach-O, COFF: an object of that class is only possible when the header predicate holds;
@@ -27,6 +29,30 @@ def sample_files():
     return sorted(f for f in glob.glob(os.path.join(root, "**", "*"), recursive=True) if os.path.isfile(f))
 
 
+ALLOC = []
+ADDRESS_SPACE = 2 << 30
+
+
+def install_alloc_watch():
+    """Bound the address space of this process and watch the format error classes: when one of them is
+    constructed while a MemoryError is being handled (the constructors' catch-all turns it into the
+    format's error, read_program then swallows it) the file made the parser request gigabytes."""
+    import resource
+    soft, hard = resource.getrlimit(resource.RLIMIT_AS)
+    resource.setrlimit(resource.RLIMIT_AS, (ADDRESS_SPACE, hard))
+    from amoco.system import elf, pe, macho, coff
+    for mod, name in ((elf, "ElfError"), (pe, "PEError"), (macho, "MachOError"), (coff, "COFFError")):
+        cls = getattr(mod, name)
+        orig = cls.__init__
+
+        def init(self, message, _orig=orig):
+            et, ev, tb = sys.exc_info()
+            if et is not None and issubclass(et, MemoryError):
+                ALLOC.append(frames(ev))
+            _orig(self, message)
+        cls.__init__ = init
+
+
 def real_outcome(data):
     """{"ok": class} | {"exn": class, "fmt": module that was parsing, "site": innermost amoco function}"""
     import time, signal
@@ -37,9 +63,15 @@ def real_outcome(data):
         out = {"ok": type(p).__name__}
     except R.Timeout as e:
         out = dict(exn="timeout", **frames(e))
+        if ALLOC and out["loop"].endswith(":__init__"):
+            # the timer fired inside the constructor's catch-all, right after a MemoryError: name the stage that allocated
+            out["loop"] = ALLOC[0]["loop"]
     except Exception as e:
         out = dict(exn=R.exn_name(e), **frames(e))
     out["t"] = time.time() - t0
+    if ALLOC:
+        out["alloc"] = ALLOC[0]
+        del ALLOC[:]
     return out
 
 
@@ -121,17 +153,46 @@ def build_corpus(r, quick):
         C.append(("sample:" + kind, b, exp))
         n = len(b)
         if quick:
-            cuts = sorted(set(list(range(0, min(n, 140))) + [r.randrange(n) for _ in range(40)]))
+            cuts = sorted(set(list(range(0, min(n, 100))) + [r.randrange(n) for _ in range(30)]))
             if n > 20000:
                 cuts = cuts[::3]
         else:
             cuts = sorted(set(list(range(0, min(n, 2048))) + list(range(2048, n, max(1, n // 600))) + [r.randrange(n) for _ in range(300)]))
         for c in cuts:
             C.append(("trunc:" + kind, b[:c], None))
-        for _ in range(40 if quick else 400):
+        for _ in range(30 if quick else 400):
             C.append(("corrupt:" + kind, G.corrupt_bytes(r, b), None))
+    # structure-aware corruptions: one field of one real table at a time, boundary values
+    def struct_aware(tag, b, fmt, budget):
+        # cost estimate of one read_program call from the size of the file (deterministic, so that the corpus depends on the seed only)
+        dt = 0.002 + len(b) * {"pe": 2e-6, "macho": 1.2e-5, "elf": 3e-7}[fmt]
+        walker = {"pe": G.walk_pe, "macho": G.walk_macho, "elf": G.walk_elf}[fmt]
+        F = walker(b)
+        nlab = max(1, len(set(f[0] for f in F)))
+        full = sum(len(G.boundary_values(b, o, sz, kd, fmt == "elf" and b[5:6] == b"\x02")) for (_, o, sz, kd) in F)
+        quota = None if (not quick and full * dt <= budget) else max(1, min(24 if quick else 400, int(budget / dt / nlab)))
+        for lab, desc, mut in G.structure_corruptions(r, b, fmt, quota=quota):
+            C.append(("struct:%s:%s" % (fmt, lab), mut, None))
+    for f in sample_files():
+        b = open(f, "rb").read()
+        if len(b) > (1 << 18):
+            continue
+        fmt = "elf" if b[:4] == b"\x7fELF" else "pe" if b[:2] == b"MZ" else "macho" if b[:4] in (b"\xcf\xfa\xed\xfe", b"\xce\xfa\xed\xfe") else None
+        if fmt:
+            struct_aware(f, b, fmt, (0.15 if fmt == "elf" else 2.0) if quick else 240.0)
+    for i in range(8 if quick else 60):
+        b, meta = G.synth_pe_imports(r)
+        C.append(("synth-pe-imports", b, "PE"))
+        struct_aware("synth-pe", b, "pe", 0.6 if quick else 60.0)
+    for i in range(4 if quick else 40):
+        b, meta = G.synth_macho(r)
+        C.append(("synth-macho", b, "MachO"))
+        struct_aware("synth-macho", b, "macho", 0.3 if quick else 30.0)
+    for i in range(6 if quick else 60):
+        b, meta = G.synth_elf(r, quirks=())
+        struct_aware("synth-elf", b, "elf", 0.3 if quick else 30.0)
     # synthesised ELF: valid, truncated, corrupted (the fully modelled format)
-    for i in range(300 if quick else 2500):
+    for i in range(220 if quick else 2500):
         q = G.pick_quirks(r)
         x64, be = [(False, False), (False, True), (True, False), (True, True)][i % 4]
         b, meta = G.synth_elf(r, x64=x64, be=be, quirks=q)
@@ -200,7 +261,15 @@ def main(tier):
         drv = Driver("drv_struct")
         env = R.elf_env()
         C = build_corpus(r, quick)
-        ans = drv.ask_many([{"op": "fmt.readprogram", "data": d.hex(), "pt": env["pt"], "sht": env["sht"]} for (k, d, e) in C])
+        install_alloc_watch()
+
+        def for_model(d):
+            # PE / Mach-O are modelled at header level: the first 64 KiB decide everything the model says about them
+            # (ELF rejects them by the magic, HEX / SREC by the first character)
+            if len(d) > 65536 and (d[:2] == b"MZ" or d[:4] in (b"\xcf\xfa\xed\xfe", b"\xce\xfa\xed\xfe")):
+                return d[:65536]
+            return d
+        ans = drv.ask_many([{"op": "fmt.readprogram", "data": for_model(d).hex(), "pt": env["pt"], "sht": env["sht"]} for (k, d, e) in C])
         for (kind, data, exp), mod in zip(C, ans):
             real = real_outcome(data)
             ck.case(("P", data), nontrivial="ok" in real and real["ok"] != "shellcode")
@@ -223,6 +292,11 @@ def main(tier):
                 ck.report(sig, what, "oracle", "Amoco.Fmt.Props20.read_program_total", case=case, real=real, model=mod,
                           expected="a format object or the raw fallback")
                 continue
+            if "alloc" in real:
+                a = real["alloc"]
+                ck.report("C20:%s:alloc:%s" % (a["fmt"], a["loop"]), "a size field of the file makes read_program request more than %d GiB of memory (in %s)"
+                          % (ADDRESS_SPACE >> 30, a["loop"]), "oracle", "Amoco.Fmt.Props20.read_program_total (allocation)", case=case, real=real, model=mod,
+                          expected="allocations bounded by the size of the input")
             if real["t"] > 2.0:
                 slow.append((real["t"], kind, len(data)))
             if exp is not None and real["ok"] != exp:
